@@ -111,9 +111,10 @@ claim("C07",
       "MatID's own part: (a) the letters of the conventional atoms are the spglib letters relabelled by the permutation of the applied normalizer (real code executed for all 230 groups) and every tabulated "
       "permutation maps Wyckoff positions onto Wyckoff positions while the normalizer maps the group onto itself (exhaustive table obligations, mixed real/integer z3 queries) - so sets stay orbits and letters are those of the "
       "standard setting; (b) index maps: every conventional atom carries the letter/orbit id of its class (symbolic, all sizes); (c) set formation (partition, multiplicity = size, letter/element of the members, sorted output) "
-      "by exhaustive execution of the real _get_wyckoff_sets on every equivalence labeling of up to 5 atoms (bounded stand-in, labelled bounded).",
-      "spglib's orbits and letters are assumed (A-SPG). Part (c) is bounded (n <= 5) and not counted as proved.",
-      "exhaustive table obligations + symbolic index-map proof; bounded exhaustive execution for set formation", "DESIGN.md §3 C07")
+      "proved for every number of atoms and orbits: the three loops of the real _get_wyckoff_sets run under invariants over a heap of WyckoffSet objects and an orbit-id -> object map "
+      "(np.unique first-occurrence contract); an exhaustive execution on every labeling of up to 5 atoms is kept as a bounded cross-check (labelled bounded, not counted).",
+      "spglib's orbits and letters are assumed (A-SPG: letter and element constant on an orbit id); np.unique contract assumed (A-NP); the return_parameters=True branch is C08's.",
+      "exhaustive table obligations + symbolic index-map proof + loop-invariant proof of set formation over a symbolic heap", "DESIGN.md §3 C07")
 
 ENGINES.append({"name": "cxxvc", "path": "engine/cxxvc.py", "serves_properties": ["C10", "C16"],
   "kind_free_text": "clang 14 typed JSON AST of the real matid/ext/*.cpp (through a stub pybind11 header) -> mechanical translation of each function body into Python statements -> executed by pyvc with loop invariants / per-iteration obligations; every run re-reads the .cpp files"})
